@@ -214,6 +214,32 @@ func (e *Engine) load(dirs []string, extra []string) error {
 				fns[fn.RelString(pkg.Types)] = fn
 			}
 		}
+		if len(cf.InitInvs) > 0 {
+			// the package initializer is verified against the invariants it is said to establish,
+			// under every property that has a contract in this package
+			if initFn := sp.Func("init"); initFn != nil {
+				props := map[string]bool{}
+				for _, c := range cf.Contracts {
+					for _, p := range c.Props {
+						props[p] = true
+					}
+				}
+				ic := &Contract{Func: "init", File: cf.Path, Line: cf.InitInvs[0].Line, IsInit: true}
+				for p := range props {
+					ic.Props = append(ic.Props, p)
+				}
+				sort.Strings(ic.Props)
+				for _, inv := range cf.InitInvs {
+					c := inv
+					if c.Name == "" {
+						c.Name = "init-establishes"
+					}
+					ic.Ensures = append(ic.Ensures, c)
+				}
+				cf.Contracts = append(cf.Contracts, ic)
+				fns["init"] = initFn
+			}
+		}
 		for _, c := range cf.Contracts {
 			if c.Assumed {
 				e.assumed[c.Func] = c
@@ -245,6 +271,9 @@ func (e *Engine) lookupSpec(name string, cc *ssa.CallCommon) *Contract {
 }
 
 func (e *Engine) isPureCallee(name string) bool {
+	if strings.HasSuffix(name, ".init") && !strings.Contains(name, "(") {
+		return true // initializer of an imported package: it cannot assign this package's variables
+	}
 	for _, p := range e.pure {
 		if strings.HasSuffix(p, "*") {
 			if strings.HasPrefix(name, p[:len(p)-1]) {
